@@ -351,7 +351,19 @@ func (g *generator) expr() node {
 	case 7:
 		c := &call{f: g.ref()}
 		for n := rapid.IntRange(0, 2).Draw(g.t, "nargs"); n > 0; n-- {
-			c.args = append(c.args, g.expr())
+			a := g.expr()
+			if g.chance("barearg", 2) {
+				// an argument needs no parentheses of its own
+				switch x := a.(type) {
+				case *funcExp:
+					x.bare = true
+				case *arrow:
+					x.bare = true
+				case *classEx:
+					x.bare = true
+				}
+			}
+			c.args = append(c.args, a)
 		}
 		return c
 	case 8:
@@ -360,7 +372,42 @@ func (g *generator) expr() node {
 		// a parenthesised expression that looks like an arrow function head
 		gr := &group{}
 		for n := rapid.IntRange(1, 3).Draw(g.t, "ngroup"); n > 0; n-- {
-			switch rapid.IntRange(0, 3).Draw(g.t, "groupitem") {
+			switch rapid.IntRange(0, 5).Draw(g.t, "groupitem") {
+			case 4, 5:
+				// a literal that could be a binding pattern, continued by a member call whose argument is a function, arrow
+				// function or class with bare names inside literals in its body: ([a].p(function(){ [b, {c, q: d}] }))
+				var lit node = &array{items: []node{g.ref()}}
+				if g.chance("grouplitobj", 2) {
+					lit = &object{props: []objProp{{shorthand: g.ref()}}}
+				} else if g.chance("grouplitempty", 3) {
+					lit = &array{}
+				}
+				var inner node
+				bodyLit := func() node {
+					return &exprStmt{e: &array{items: []node{g.ref(), &object{props: []objProp{{shorthand: g.ref()}, {key: "q", value: g.ref()}}}}}}
+				}
+				switch rapid.IntRange(0, 2).Draw(g.t, "groupinner") {
+				case 0:
+					fe := &funcExp{fn: g.function("function"), bare: true}
+					fe.fn.body = append(fe.fn.body, bodyLit())
+					inner = fe
+				case 1:
+					ar := &arrow{fn: g.function("arrow"), bare: true}
+					if ar.fn.expr != nil {
+						ar.fn.expr = &array{items: []node{g.ref(), ar.fn.expr}}
+					} else {
+						ar.fn.body = append(ar.fn.body, bodyLit())
+					}
+					inner = ar
+				default:
+					o := &object{}
+					m := g.methodProp()
+					m.method.body = append(m.method.body, bodyLit())
+					o.props = append(o.props, m)
+					inner = &call{f: g.ref(), args: []node{o}}
+				}
+				gr.items = append(gr.items, &call{f: &member{obj: lit, prop: "p"}, args: []node{inner}})
+				g.classes["arrow-lookalike-nested-function"]++
 			case 0:
 				gr.items = append(gr.items, g.ref())
 			case 1:
